@@ -598,7 +598,14 @@ func (root *Root) resolveField(
 			return
 		}
 	}
-	const queryType = "Query"
+	// The query object is the type the schema binds to the query operation
+	// which need not be named Query.
+	queryType := "Query"
+	if root.schema != nil {
+		if qfd := root.schema.fields.get(string(OpQuery)); qfd != nil && qfd.Type != nil {
+			queryType = qfd.Type.Name()
+		}
+	}
 	var ea2 []error
 	switch field.Name {
 	case "__typename":
